@@ -18,8 +18,11 @@ PROPERTY = "C03"
 RULE = ("compounds: Hypothesis draws a flat {atom: count} dict (1-8 distinct atoms, counts 1e-3..1e3) or a derivation "
         "tree rendered to a string, over the 363 atoms with neutron data and their ions (the 15 energy dependent "
         "atoms and their ions are 5/17 of the atom draws), density in (0, 25] as density=, natural_density= or "
-        "@ tag, wavelength in [0.05, 50] A (half of them inside the tabulated range, table nodes included) as "
-        "scalar, int, list, 1-D or 2-D array, as wavelength= or the equivalent energy=; oracle = documented "
+        "@ tag (log-uniform down to 1e-12 g/cm^3 with a share of the extreme tail), dict counts optionally times a "
+        "common factor 1e-12..1e12, wavelength in [0.05, 50] A (half of them inside the tabulated range, table nodes "
+        "included) as Python float/int, np.float32/float64/int64 scalar, 0-d array, list, tuple, 1-D or 2-D float "
+        "array, or integer-valued list/tuple/int32/int64 array (whole A or whole meV; judged at the float values), as "
+        "wavelength= or the equivalent energy=; oracle = documented "
         "equations evaluated by pbt/refcalc_neutron.py, all seven outputs at rel 1e-10 plus an absolute floor of "
         "1e-13 x operand scale (incoherent terms compared as sigma_i with floor 1e-13 x (sigma_s + 2 sigma_c scale)); "
         "non-trivial = >= 2 distinct atoms and (energy dependent atom with an ordinary one, or an ion/isotope, or a "
@@ -39,6 +42,8 @@ ASSUMPTIONS = [
     "(the repository test test_energy_dependent pins these numbers)",
     "sigma_i = max(sigma_s - sigma_c, 0): the documented difference, clipped because C04 says it is never negative",
     "Ra and Ra-226 (b_c tabulated, no element density) are neither 'with' nor 'without' neutron data: not generated",
+    "a np.float32 wavelength/energy scalar is judged at its float32 value with rel 1e-6 (numpy keeps float32 in the "
+    "outputs proportional to it); all other argument types at rel 1e-10",
     "outputs must have the shape of the wavelength/energy argument (docstring: 'vectors if wavelength is a vector')",
 ]
 EXHAUSTIVE = True
@@ -73,13 +78,14 @@ def check_compound(ctx, v):
         got = ng.flatten(pt.neutron_scattering(obj, **kw))
     for o in OUTPUTS:
         ng.check_shape("c03:compound", o, got[o], shape, case)
-    ng.compare_outputs("c03:compound", got, comp, rho, lams, case, "edep" if edep else "ordinary")
+    rel = ng.wl_rel(v["wl"]["form"])
+    ng.compare_outputs("c03:compound", got, comp, rho, lams, case, "edep" if edep else "ordinary", rel=rel)
     # neutron_sld is the first element of the same calculation
     sld = pt.neutron_sld(obj, **kw)
     for o, s in zip(OUTPUTS[:3], sld):
         ng.check_shape("c03:neutron_sld", o, s, shape, case)
     ng.compare_outputs("c03:neutron_sld", dict(zip(OUTPUTS[:3], sld)), comp, rho, lams, case,
-                       "edep" if edep else "ordinary", outputs=OUTPUTS[:3])
+                       "edep" if edep else "ordinary", outputs=OUTPUTS[:3], rel=rel)
     repeat_calls(ctx, v, case, comp, shape, wkw, edep)
 
 
@@ -96,19 +102,19 @@ def repeat_calls(ctx, v, case, comp, shape, wkw, edep):
     how, arg = list(wkw.items())[0]
     lams_now = ng.build_wavelength(v["wl"])[1]
     rho2 = v["rho2"]
+    rel = ng.wl_rel(v["wl"]["form"])
     ctx.count("repeat:" + ("vector" if shape != () else "scalar"))
     with unchanged("c03", case, compound=obj0 if isinstance(obj0, dict) else None, **wkw):
         got = ng.flatten(pt.neutron_scattering(obj0, density=rho2, **wkw))
     for o in OUTPUTS:
         ng.check_shape("c03:repeat", o, got[o], shape, case)
-    ng.compare_outputs("c03:repeat:other-density", got, comp, rho2, lams_now, case, tag)
-    if shape == () or not v.get("lams2"):
+    ng.compare_outputs("c03:repeat:other-density", got, comp, rho2, lams_now, case, tag, rel=rel)
+    if shape == () or not v.get("lams2") or isinstance(arg, tuple):
         return
     # the caller reuses its list / array for other wavelengths
     n = len(lams_now)
     lams2 = [v["lams2"][i % len(v["lams2"])] for i in range(n)]
-    vals = [R.energy(l) for l in lams2] if how == "energy" else lams2
-    ref_l = [R.wavelength(e) for e in vals] if how == "energy" else lams2
+    vals, ref_l = ng.wl_values(v["wl"]["form"], how, lams2)      # whole numbers for the integer forms
     if isinstance(arg, list):
         arg[:] = vals
     else:
